@@ -4,6 +4,7 @@
     nothing is persisted afterwards.  "Fails" = the storage oracle answers None / the key material is unusable. *)
 From Saml Require Import Base.Bytes Idp.FactTypes Gen.Facts Idp.Sso Idp.Callback Idp.Logout Idp.AttrQuery Idp.Metadata
   Proofs.SsoProofs Proofs.CallbackProofs Proofs.LogoutProofs.
+From Saml Require Import Idp.KeyGuards.
 From Saml Require Properties.C01 Properties.C12 Properties.C13.
 
 (** login callback: a Success reply implies that every lookup, the key retrieval and the signing succeeded *)
@@ -67,6 +68,25 @@ Proof. exact metadata_structure. Qed.
 Theorem C10_probes : certificate_handler false = MError /\ ready_handler false = MError.
 Proof. split; reflexivity. Qed.
 
+(** the key-fault kinds: which answers of the two signing-key getters are accepted, from the guard statements of the
+    source.  getResponseCert: a present record, a present non-zero key, a present non-empty certificate, no error;
+    getMetadataCert: presence only (an empty certificate is refused later, by the signer: the metadata endpoint still
+    answers with an error, see the model of C10_metadata); and no guard dereferences the record before the nil guard *)
+Theorem C10_response_key : forall k, response_cert_ok k = true <->
+  k_err k = false /\ k_rec_nil k = false /\ k_key_nil k = false /\ k_cert_nil k = false /\ k_cert_empty k = false /\ k_key_zero k = false.
+Proof. exact response_cert_ok_iff. Qed.
+Theorem C10_metadata_key : forall k, metadata_cert_ok k = true <->
+  k_err k = false /\ k_rec_nil k = false /\ k_key_nil k = false /\ k_cert_nil k = false.
+Proof. exact metadata_cert_ok_iff. Qed.
+Theorem C10_key_guards_order :
+  match response_guards, metadata_guards with Some g1, Some g2 => derefs_before_nil_guard g1 = false /\ derefs_before_nil_guard g2 = false | _, _ => False end.
+Proof. exact guards_no_nil_dereference. Qed.
+(** composed with the endpoint models: whatever the getters answer, a refused response key means an error reply from the
+    metadata and certificate endpoints *)
+Theorem C10_key_fault_fails_closed : forall k sign_conf mk signer_ok, response_cert_ok k = false ->
+  metadata_handler (response_cert_ok k) sign_conf mk signer_ok = MError /\ certificate_handler (response_cert_ok k) = MError.
+Proof. intros k sign_conf mk signer_ok H. rewrite H. split; reflexivity. Qed.
+
 Print Assumptions C10_callback.
 Print Assumptions C10_sso.
 Print Assumptions C10_attrquery.
@@ -74,3 +94,7 @@ Print Assumptions C10_logout.
 Print Assumptions C10_metadata.
 Print Assumptions C10_metadata_structure.
 Print Assumptions C10_probes.
+Print Assumptions C10_response_key.
+Print Assumptions C10_metadata_key.
+Print Assumptions C10_key_guards_order.
+Print Assumptions C10_key_fault_fails_closed.
